@@ -214,6 +214,8 @@ pub struct UpState {
     /// forced behaviour for epilogues
     pub force: Option<UpForce>,
     pub ready_cost: bool,
+    /// the two kinds of futures the upstream can hand out (ItemGate / ItemReady slots of the menu)
+    pub modes: [Mode; 2],
 }
 
 #[derive(Clone, Copy, PartialEq, Eq, Debug)]
@@ -267,6 +269,8 @@ pub struct World {
     pub occupant: Vec<(usize, u32)>,
     // flags
     pub draining: bool,
+    /// self-waking children stay quietly Pending until the environment unleashes them
+    pub dormant: bool,
     pub spin_limit: u32,
     pub spin_hit: bool,
     // upstream
@@ -317,6 +321,7 @@ impl World {
             env_wake_depth: 0,
             occupant: Vec::new(),
             draining: false,
+            dormant: false,
             spin_limit: 100_000,
             spin_hit: false,
             up: UpState {
@@ -336,6 +341,7 @@ impl World {
                 dropped: 0,
                 force: None,
                 ready_cost: true,
+                modes: [Mode::Gate, Mode::Ready],
             },
             closure_calls: Vec::new(),
             blocks: Vec::new(),
@@ -762,6 +768,7 @@ impl<O: Out> Future for ScriptFut<O> {
             store_waker(id, cx);
             let act = w(|w| {
                 let draining = w.draining;
+                let dormant = w.dormant;
                 let spin_limit = w.spin_limit;
                 let c = &mut w.children[id as usize];
                 let act = match c.mode {
@@ -785,6 +792,8 @@ impl<O: Out> Future for ScriptFut<O> {
                     Mode::YieldInf => {
                         if draining || c.released {
                             Act::Complete
+                        } else if dormant {
+                            Act::Pending
                         } else if c.polls_in_cpoll > spin_limit {
                             Act::Bad
                         } else {
@@ -914,9 +923,13 @@ impl Stream for ScriptStream {
             store_waker(id, cx);
             let act = w(|w| {
                 let draining = w.draining;
+                let dormant = w.dormant;
                 let spin_limit = w.spin_limit;
                 let c = &mut w.children[id as usize];
                 let act = loop {
+                    if c.omega && dormant && !draining && !c.released {
+                        break SAct::Pending;
+                    }
                     if c.omega && !draining && !c.released {
                         if c.polls_in_cpoll > spin_limit {
                             break SAct::Bad;
@@ -1111,8 +1124,8 @@ impl<I: UpItem> Stream for Upstream<I> {
                 UpAns::ItemGate | UpAns::ItemReady | UpAns::ItemGateFail | UpAns::ItemReadyFail => {
                     let id = w(|w| {
                         let mode = match ans {
-                            UpAns::ItemGate | UpAns::ItemGateFail => Mode::Gate,
-                            _ => Mode::Ready,
+                            UpAns::ItemGate | UpAns::ItemGateFail => w.up.modes[0],
+                            _ => w.up.modes[1],
                         };
                         let id = w.new_child(mode);
                         w.children[id as usize].fail = matches!(ans, UpAns::ItemGateFail | UpAns::ItemReadyFail);
